@@ -2,9 +2,9 @@
 
 Complete product of stream configurations on make_transcoder over BytesIO, against an integer
 de-interleave oracle.  The internal block size is set from outside through the default argument
-of get_num_frames_possible; a big-endian host is emulated by rebinding the module's host order
-together with the byte order of the dtypes the encodings hand to numpy (only when those dtypes
-are native-order, which is the coupling the library itself relies on).
+of get_num_frames_possible; a big-endian host is emulated by rebinding the module's host-order
+flag only (see Env for why that is faithful for value-agnostic pipelines; done only when the encodings
+hand native-order dtypes to numpy, which is the coupling the library itself relies on).
 """
 import io
 import itertools
@@ -73,9 +73,12 @@ class Env:
             if self.saved_host is None or not isinstance(self.saved_dtype, property) or probe.byteorder not in ("=", "|"):
                 self.skipped = "big-endian host cannot be emulated (library does not use native-order dtypes + system_byte_order)"
             else:
+                # Only the host flag is rebound; numpy keeps reading natively.  Every intermediate value is then the
+                # byte-reversed image of the value a real big-endian host would hold; byte swaps and channel routing
+                # commute with that reversal, and the final native tobytes() writes exactly the bytes a real
+                # big-endian host would write.  (Valid because source and destination have the same width and
+                # signedness in every case here, so no step of the pipeline looks at sample VALUES.)
                 T.system_byte_order = D.Endianess.BIG
-                orig = self.saved_dtype
-                D.StreamEncoding.dtype = property(lambda s: orig.fget(s).newbyteorder(">"))
         return self
 
     def __exit__(self, *a):
@@ -132,26 +135,31 @@ class Check(CheckBase):
     title = "PCM transcoding maps every source channel to the same-numbered output channel"
     rule = ("complete product: streams 1..3 x interleaved channels 1..3 x width {1,2,4} x byte order per stream x frames "
             "per stream {0,1,3,4} x trailing partial-frame bytes {0,1} x internal block target {1,8,4096} bytes, complete "
-            "product in both tiers; thorough widens frames to {0..5} and block targets to {1,4,8,4096}; host order is the "
-            "real (little-endian) one. non-trivial = >=2 output channels, or mixed byte orders, or "
+            "product in both tiers; thorough widens frames to {0..5} and block targets to {1,4,8,4096}; host order: the real "
+            "(little-endian) one for everything, and an emulated big-endian host (host flag rebound; byte-exact for pipelines "
+            "that never look at sample values, i.e. equal width and signedness as here) for all 1- and 2-stream products, the "
+            "3-stream products with block target 8 (quick) / all (thorough) and the long streams. non-trivial = >=2 output channels, or mixed byte orders, or "
             "unequal lengths")
     assumptions = ["sample values are distinct per (stream, channel, frame) and byte-asymmetric",
-                   "a big-endian host cannot be emulated faithfully on this machine (numpy normalises non-native "
-                   "dtypes when stacking), so the host-order part of the quantifier is not explored"]
+                   "big-endian host = the library's host-order flag rebound on this little-endian machine; exact for "
+                   "value-agnostic pipelines (all cases use one width and signedness); skipped with a note if the library "
+                   "stops coupling native-order dtypes to that flag"]
 
     def shards(self):
         out = []
         fr = FRAMES if self.quick else FRAMES_T
         for width in (1, 2, 4):
             for block in (BLOCKS if self.quick else BLOCKS_T):
-                for host in ("little",):
+                for host in ("little", "big"):
                     out.append({"width": width, "block": block, "host": host, "k": 1, "first": None, "frames": fr})
                     for first in stream_cfgs(fr):
                         out.append({"width": width, "block": block, "host": host, "k": 2, "first": list(first), "frames": fr})
-                        out.append({"width": width, "block": block, "host": host, "k": 3, "first": list(first), "frames": fr})
+                        if host == "little" or block == 8 or not self.quick:
+                            out.append({"width": width, "block": block, "host": host, "k": 3, "first": list(first), "frames": fr})
         # long streams against the real 4096-byte block: lengths around one and two blocks
         for width in (1, 2, 4):
-            out.append({"width": width, "block": 4096, "host": "little", "k": 0, "long": True})
+            for host in ("little", "big"):
+                out.append({"width": width, "block": 4096, "host": host, "k": 0, "long": True})
         return out
 
     def run_shard(self, shard, rep: Report):
@@ -159,12 +167,16 @@ class Check(CheckBase):
             width = shard["width"]
             per = 4096 // width
             lens = sorted({per - 1, per, per + 1, 2 * per, 2 * per + 1, per // 2, per // 2 + 1})
-            with Env(4096, "little") as env:
+            host = shard.get("host", "little")
+            with Env(4096, host) as env:
+                if env.skipped:
+                    rep.notes["skipped: " + env.skipped] += 1
+                    return
                 one = [(ch, o, f, t) for ch in (1, 2, 3) for o in ("L", "B") for f in lens for t in (0, 1)]
                 gens = [(c,) for c in one] + [(a, b) for a in one[::3] for b in one[::5]]
                 for cfgs in gens:
                     ok, klass, detail = run_case(env, width, cfgs)
-                    case = {"width": width, "block": 4096, "host": "little", "cfgs": [list(c) for c in cfgs]}
+                    case = {"width": width, "block": 4096, "host": host, "cfgs": [list(c) for c in cfgs]}
                     rep.case(case, ok=ok, klass="long:" + klass, nontrivial=True, detail=detail, sig="long:" + klass)
             return
         if "replay_case" in shard:
